@@ -14,11 +14,13 @@ package packet
 //@      || strcontains(errmsg(err), "use of closed file")
 
 //@ func isTemporaryError
+//@   sig err
 //@   props C20 C03 C06 C16 C12 C11
 //@   requires err != nil
 //@   ensures ret <==> transient(err)
 
 //@ func isUnrecoverableError
+//@   sig err
 //@   props C20 C03 C06 C16 C12 C11
 //@   requires err != nil
 //@   ensures ret <==> broken(err)
@@ -40,6 +42,7 @@ package packet
 // C07: sender stage (one decision-table row per received packet)
 //
 //@ func FreeSerializeBuffer
+//@   sig buf
 //@   props C07 C01 C05 C19 C11 C13 C15 C16 C12
 //@   observe Clear, Put
 //@   entry row clearerr: [call Clear(buf) as (e)] when e != nil && ret == e -> exit
@@ -67,11 +70,13 @@ package packet
 // ---------------------------------------------------------------------------------------------
 // C15: every frame written is charged to the limiter exactly once, before the write; reading is never charged
 //@ func (*rateLimitReadWriter).WritePacketData
+//@   sig rw, pkt
 //@   props C15 C07 C01 C16 C05 C11 C13 C19 C12
 //@   observe Take, WritePacketData
 //@   entry row charged: [call Take(rw.limiter) ; call WritePacketData(rw.ReadWriter, pkt) as (e)] when ret == e -> exit
 
 //@ func NewRateLimitReadWriter
+//@   sig delegate, limiter
 //@   props C15 C07 C01 C16 C05 C11 C13 C19 C12
 //@   ensures isptr(ret, rateLimitReadWriter) && asptr(ret, rateLimitReadWriter).ReadWriter == delegate && asptr(ret, rateLimitReadWriter).limiter == limiter
 
@@ -79,15 +84,19 @@ package packet
 // the error streams have room for at least 100 pending errors (their sends are unguarded: after a cancellation the
 // consumer is gone, and an unbuffered stream would block the stage on its first error)
 //@ func NewSender
+//@   sig w
 //@   props C07 C01 C05 C11 C13 C15 C16 C19 C12
 //@   ensures isptr(ret, sender) && asptr(ret, sender).w == w
 //@ func NewReceiver
+//@   sig sr, p
 //@   props C20 C06 C03 C16 C12 C11
 //@   ensures isptr(ret, receiver) && asptr(ret, receiver).sr == sr && asptr(ret, receiver).p == p
 //@ func (*sender).SendPackets
+//@   sig s, ctx, in
 //@   props C07 C12 C16 C19 C01 C05 C11 C13 C15
 //@   entry row start: [go (*sender).SendPackets$1{done: bind_d, errc: bind_e, in: bind_i, ctx: bind_c, s: bind_s2}] when ret0 == d && ret1 == e && i == in && c == ctx && s2 == s && d != e && chancap(e) >= 100 -> exit
 //@ func (*receiver).ReceivePackets
+//@   sig r, ctx
 //@   props C20 C12 C16 C03 C06 C11
 //@   entry row start: [go (*receiver).ReceivePackets$1{errc: bind_e, ctx: bind_c, r: bind_r2}] when ret == e && c == ctx && r2 == r && chancap(e) >= 100 -> exit
 
